@@ -11,6 +11,7 @@
 From PV Require Import Base.Prelude Faults.DictFaults Faults.DictFaultsProofs.
 From PV Require Import MaildirFS.FS MaildirFS.UidList MaildirFS.Ops MaildirFS.Spec
   MaildirFS.Legal MaildirFS.Examples MaildirFS.CrashProofs MaildirFS.CommandProofs.
+From PV Require Import MaildirFS.Legal Faults.MaildirFaults Faults.MaildirFaultsProofs.
 
 (* ---- dict *)
 (* MOVE: at every instant (after each storage call, wherever the fault lands,
@@ -129,3 +130,95 @@ Theorem C14_refuted_maildir_multiappend_kill :
   /\ served_cids (recover_folder (ex_state 24) []) = [1%N; 2%N].
 Proof. exact multiappend_kill_witness. Qed.
 Print Assumptions C14_refuted_maildir_multiappend_kill.
+
+(* ==== maildir: a filesystem operation of a command fails with an OSError
+   (ENOSPC / EIO / EACCES) while the server keeps running
+   (Faults/MaildirFaults.v: the operations before the fault, then the
+   clean-up the code performs on the exception path; the client gets BYE) *)
+
+(* every operation performed — before the fault and on the exception path —
+   is of a legal kind where it is applied, for every command, every Inv state
+   and every fault position: all C15 theorems about legal runs apply *)
+Theorem C14_maildir_fault_legal : forall lay m sel c k fo,
+  Inv m -> fault_cmd lay m sel c k = Some fo -> legal_ops_b lay m (f_ops fo) = true.
+Proof. exact fault_cmd_legal. Qed.
+Print Assumptions C14_maildir_fault_legal.
+
+(* the invariant holds again afterwards: the control files are readable, keys
+   unique, names recordable — the continuation starts from an Inv state *)
+Theorem C14_maildir_fault_inv : forall lay m sel c k fo,
+  Inv m -> fault_cmd lay m sel c k = Some fo -> Inv (fault_state lay m (f_ops fo)).
+Proof. exact fault_cmd_inv. Qed.
+Print Assumptions C14_maildir_fault_inv.
+
+(* no lock file is left behind (the folder is not wedged for 600 s), for every
+   command of the alphabet and every fault position other than the removal of
+   the lock file itself *)
+Theorem C14_maildir_fault_lock_released : forall lay m sel c k fo,
+  Inv m -> (forall p, is_lock p = true -> lookup m p = None) ->
+  fault_cmd lay m sel c k = Some fo ->
+  snd (apply_ops lay m (f_ops fo)) = true ->
+  forall p, is_lock p = true -> lookup (fault_state lay m (f_ops fo)) p = None.
+Proof. exact fault_lock_released_all. Qed.
+Print Assumptions C14_maildir_fault_lock_released.
+
+(* every command takes and releases lock files in a disciplined way *)
+Theorem C14_maildir_lock_discipline : forall lay m sel c,
+  brackets (o_ops (run_cmd lay m sel c)) = true.
+Proof. exact run_cmd_brackets. Qed.
+Print Assumptions C14_maildir_lock_discipline.
+
+(* APPEND of any number of messages whose k-th operation fails inside the
+   message loop (not: the removal of a tmp/ name): every delivered message
+   file is exactly as before — none of the APPEND's messages is in new/ or
+   cur/, so none is served or adopted later: all-or-nothing, and "the command
+   did not succeed => mailbox contents unchanged" *)
+Theorem C14_maildir_multiappend_fault : forall lay m sel f msgs k fo,
+  fault_cmd lay m sel (CAppend f msgs) k = Some fo ->
+  rollback_applies lay m sel (CAppend f msgs) k = true ->
+  (forall o, nth_error (o_ops (run_cmd lay m sel (CAppend f msgs))) k = Some o ->
+             in_add o = false) ->
+  snd (apply_ops lay m (f_ops fo)) = true ->
+  forall q, is_live q = true -> lookup (fault_state lay m (f_ops fo)) q = lookup m q.
+Proof. exact append_fault_nothing_delivered. Qed.
+Print Assumptions C14_maildir_multiappend_fault.
+
+(* MOVE (any command): the file of a message the faulted command does not
+   unlink exists in some folder afterwards, and in one only *)
+Theorem C14_maildir_move_fault_conserved : forall lay m sel c k fo key,
+  Inv m -> fault_cmd lay m sel c k = Some fo ->
+  (exists f i cid, file_at m f key i cid) ->
+  (forall o, In o (f_ops fo) -> forall s f i, o <> OUnlink (PMsg f s key i) \/ live s = false) ->
+  exists f i cid, file_at (fault_state lay m (f_ops fo)) f key i cid.
+Proof. exact fault_file_conserved. Qed.
+Print Assumptions C14_maildir_move_fault_conserved.
+
+Theorem C14_maildir_move_fault_once : forall lay m sel c k fo key f i cid f' i' cid',
+  Inv m -> fault_cmd lay m sel c k = Some fo ->
+  file_at (fault_state lay m (f_ops fo)) f key i cid ->
+  file_at (fault_state lay m (f_ops fo)) f' key i' cid' ->
+  f = f' /\ i = i' /\ cid = cid'.
+Proof. exact fault_file_once. Qed.
+Print Assumptions C14_maildir_move_fault_once.
+
+(* the served view of a concrete faulted two-message APPEND at each of its 22
+   positions: the old message only, except at the two failing tmp/ removals *)
+Theorem C14_maildir_fault_example :
+  map exf_view (seq 0 22) =
+  [Some [1%N]; None; Some [1%N]; Some [1%N]; Some [1%N]; Some [1%N]; Some [1%N; 2%N];
+   Some [1%N]; Some [1%N]; Some [1%N]; Some [1%N]; None; Some [1%N]; Some [1%N]; Some [1%N];
+   Some [1%N]; Some [1%N; 3%N]; Some [1%N]; Some [1%N]; Some [1%N]; Some [1%N]; None].
+Proof. exact fault_example_views. Qed.
+Print Assumptions C14_maildir_fault_example.
+
+(* open finding C14-F4: when the removal of the tmp/ name fails after the link,
+   stdlib Maildir.add re-raises without the key; APPEND answers BYE, yet the
+   message is adopted by the next scan *)
+Theorem C14_maildir_no_means_unchanged_refuted :
+  (match fault_cmd LPlus exf_m None exf_cmd 6 with
+   | Some fo => fresp_eqb (f_resp fo) FBye | None => false end) = true
+  /\ nth_error (o_ops (run_cmd LPlus exf_m None exf_cmd)) 6
+     = Some (OUnlink (PMsg [] STmp [107%N; 50%N] []))
+  /\ exf_view 6 = Some [1%N; 2%N].
+Proof. exact fault_unlink_tmp_witness. Qed.
+Print Assumptions C14_maildir_no_means_unchanged_refuted.
